@@ -146,6 +146,25 @@ def fill(claim, na):
         "idiom tables in sa/props/C13.py.",
         "DESIGN.md section 2, C13",
     )
+    claim(
+        "C17",
+        "term extraction of the change masks, wrapper forwarding-shape comparison, call-graph cycle "
+        "detection over molecules.py and the lowered bonds.pyx, control dependence of returns on "
+        "boolean mode parameters (custom ast analysis)",
+        "Decides: get_residue_starts ORs exactly the consecutive-atom changes of chain_id, res_id, "
+        "ins_code, res_name, get_chain_starts exactly chain_id change OR res_id decrease, both "
+        "shifted by one with 0 prepended and the array length as exclusive stop; each of the "
+        "twelve residue/chain wrappers computes its starts with add_exclusive_stop=True and "
+        "forwards to the like-named segment function with the arguments in order, counts/names "
+        "use the starts without stop; every return of a function with a boolean mode parameter "
+        "depends on that parameter (empty-array early return repaired); segment lookup is "
+        "searchsorted(side='right') - 1 with two-sided range checks; no recursive function is "
+        "reachable from the molecule functions (known finding: _find_connected). Not decided: "
+        "value agreement of the derived views with a per-atom recomputation.",
+        "Trusted: the comparison idiom x[1:] != x[:-1]; call resolution by function name inside "
+        "molecules.py/bonds.pyx.",
+        "DESIGN.md section 2, C17",
+    )
     for p in ["C03", "C03", "C04", "C05", "C08", "C09", "C10",
-              "C11", "C14", "C15", "C16", "C17", "C18", "C19"]:
+              "C11", "C14", "C15", "C16", "C18", "C19"]:
         na(p, PENDING)
